@@ -201,3 +201,22 @@ def run_judge(universe_sx, cases, obs, workdir, shards=None):
                 elif len(parts) >= 4 and parts[1] == 'FAIL':
                     res[parts[0]] = ('FAIL', parts[2].split(','), parts[3])
     return res
+
+
+def run_sessions(exe, sessions, timeout=300, env=None, envs=None):
+    """sessions: list of lists of (id, sexp); each session runs in a process of its own,
+    sessions in parallel.  envs: optional per-session environment dicts."""
+    obs = {}
+
+    def one(i):
+        e = None
+        if envs is not None and envs[i] is not None:
+            e = dict(os.environ)
+            e.update(envs[i])
+        elif env is not None:
+            e = env
+        return run_session(exe, ['%s %s' % (cid, sx) for cid, sx in sessions[i]], timeout=timeout, env=e)
+    with ThreadPoolExecutor(max_workers=NPROC) as ex:
+        for o in ex.map(one, range(len(sessions))):
+            obs.update(o)
+    return obs
